@@ -333,3 +333,9 @@ V("C03", "benign_pattern_concatenate", "silent", (SYSTEM, "                    i
 V("C02", "args_ii_bound_to_ij_names", "violation", (MODEL, "            'ii_args': self.ii_args,\n            'ij_args': self.ij_args,", "            'ii_args': self.ij_args,\n            'ij_args': self.ii_args,"), rule="C02.consumer")
 V("C02", "args_sns_from_g_names", "violation", (MODEL, "        self.sns_args = [self._input[arg] for arg in self.calls.sns_args]", "        self.sns_args = [self._input[arg] for arg in self.calls.g_args]"), rule="C02.consumer")
 V("C02", "benign_args_tuple_table", "silent", (MODEL, "        for key, val in mapping.items():\n            source = self.calls.__dict__[key]\n            for name in source:\n                val[name] = [self._input[arg] for arg in source[name]]", "        for key in mapping:\n            source = getattr(self.calls, key)\n            for name, args in source.items():\n                mapping[key][name] = [self._input[arg] for arg in args]"))
+V("C19", "next_idx_counter_not_advanced", "violation", ("andes/models/group.py", "                    count += 1\n", "                    pass\n"), rule="C19.registry")
+V("C19", "next_idx_checks_uid_map_only_first", "violation", ("andes/models/group.py", "                if idx not in self._idx2model:\n                    break", "                if idx not in self._idx2model or count > self.n:\n                    break"), rule="C19.registry")
+V("C19", "explicit_idx_taken_is_kept", "violation", ("andes/models/group.py", "                               self.class_name, idx, self.idx2model(idx).class_name)\n                need_new = True", "                               self.class_name, idx, self.idx2model(idx).class_name)"), rule="C19.registry")
+V("C19", "finder_adds_without_looking_at_new_devices", "violation", ("andes/core/service.py", "            if (not valid_idx) and self.auto_find:\n                idx = mdl.find_idx(self.idx_name, (link_to, ), allow_none=True, default=None)[0]", "            if (not valid_idx) and self.auto_find and not added:\n                idx = mdl.find_idx(self.idx_name, (link_to, ), allow_none=True, default=None)[0]"), rule="C19.find-or-add")
+V("C19", "finder_no_refresh_after_add", "violation", ("andes/core/service.py", "            mdl.list2array()\n            mdl.refresh_inputs()\n", "            mdl.list2array()\n"), rule="C19.find-or-add")
+V("C19", "benign_next_idx_while_condition", "silent", ("andes/models/group.py", "            while True:\n                # IMPORTANT: automatically assigned index is 1-indexed. Namely, `GENCLS_1` is the first generator.\n                # This is because when we say, for example, `GENCLS_10`, people usually assume it starts at 1.\n                idx = model_name + '_' + str(count + 1)\n                if idx not in self._idx2model:\n                    break\n                else:\n                    count += 1\n", "            idx = model_name + '_' + str(count + 1)\n            while idx in self._idx2model:\n                count += 1\n                idx = model_name + '_' + str(count + 1)\n"))
